@@ -19,7 +19,7 @@ def base_streams(rnd, n):
         hs = hs[:-2] + b"X-Pad: " + b"p" * pad + b"\r\n\r\n"
         out.append(("bighdr", hs, E(1, b"after the header"), {}, None))
     for i in range(n):
-        kind = rnd.choice(["valid", "valid", "invalid", "appclose", "appsend", "bighdr"])
+        kind = rnd.choice(["valid", "valid", "invalid", "appclose", "appsend", "bighdr", "closemid"])
         hs = scen.HANDSHAKE
         app = {}
         bad_off = None
@@ -42,6 +42,11 @@ def base_streams(rnd, n):
             cut = rnd.randrange(0, len(frames) + 1)
             bad_off = len(hs) + len(scen.render(frames[:cut]))
             body = scen.render(frames[:cut]) + bad + scen.render(frames[cut:])
+        elif kind == "closemid":
+            # the server's Close is not the last thing it sends: what follows is still read and delivered until EOF
+            cut = rnd.randrange(0, len(frames) + 1)
+            bad_off = len(hs) + len(scen.render(frames[:cut]))
+            body = scen.render(frames[:cut]) + E(8, ref6455.close_payload(rnd.choice([1000, 1001, None]), b"")) + scen.render(frames[cut:])
         elif kind == "appclose":
             app = {rnd.randrange(0, 6): [("close", 1000, b"bye")]}
             body += E(8, ref6455.close_payload(1000, b"bye"))
